@@ -1,5 +1,6 @@
 import GradysProofs.Lemmas.SimLife
 import GradysProofs.Lemmas.SimTrace
+import GradysProofs.Lemmas.SimUnbounded
 /-
   C04 — a run stops exactly at its bounds: duration, iteration limit, or exhaustion.
   `isDone` is the repaired rule (the NEXT event's time is compared with the duration).
@@ -222,6 +223,25 @@ theorem C04_stops_only_at_bounds (cfg : Config S) (P : NodeId → Proto S σ) (w
       · rename_i hnd
         rw [if_neg hnd] at hr
         cases hr
+
+/-- the events a bounded run executes are, in order, a PREFIX of the events the unbounded run of
+    the same scenario and program executes (same number of `step_simulation` calls on both): bounds
+    only ever cut a run short, they never reorder, skip or add events. With
+    `C04_every_executed_within_bounds` (everything in the prefix is within the bounds),
+    `C04_runs_while_within_bounds` (the prefix is extended whenever the next event is within them) and
+    `C04_stops_only_at_bounds` this is "precisely the events with ts ≤ D and ordinal < N". -/
+theorem C04_prefix_of_unbounded (cfg : Config S) (hdt : 0 ≤ cfg.dt) (P : NodeId → Proto S σ) (n : Nat) :
+    (steps cfg P n (init cfg P)).executed <+:
+      (steps (unbounded cfg) P n (init (unbounded cfg) P)).executed := by
+  have h0 : Lock (init cfg P) (init (unbounded cfg) P) := by
+    left
+    refine ⟨?_, (init_unbounded cfg P).symm⟩
+    rw [init_eq]; split <;> rfl
+  rcases lock_steps cfg hdt P n _ _ h0 with ⟨_, he⟩ | ⟨_, l, hl⟩
+  · rw [he]; exact List.prefix_refl _
+  · unfold World.executed
+    rw [hl, List.reverse_append]
+    exact List.prefix_append _ _
 
 /-- non-vacuity: with duration 10 an event at 10 does not stop the run, an event at 11 does -/
 example (cfg : Config S) (hD : cfg.duration = some 10) (hN : cfg.maxIter = none) (w : World S σ)
